@@ -19,6 +19,14 @@ AL = ['a', 'ab', 'b', 'ba', 'c', 'ca', 'ac', 'd', 'da', 'ad', 'bd', 'db', 'cd', 
 SCHEMES = ['x', 'y', 'xlist', 'alist']           # base letter x (default), base letter y, two explicit name lists
 GF = {'g1': lambda a, b=0.5: 0.5 * a - b + 1.0, 'g2': lambda a, b=2.0: abs(a) * b - 3.0}
 INF = float('inf')
+# interleaved generation: right-hand sides use the named constants K0, K1 and g(...) bound through `locals`
+NPOOL = ['named', 'named', 'gcall', 'const', 'linear']
+GF3 = dict(GF, g3=lambda a, b=-1.0: a * a + b)
+KVALS = [2.5, -3.0, 0.5, 7.0, -0.25, 1e3, 0.0, 5.0, -1e6, 1e12]
+TOLSETS = [None, {'tol': 1e-6, 'rel': 1e-15}, {'tol': 0.5, 'rel': 1e-3}, {'tol': 1e-3, 'rel': 0.0},
+           {'tol': 1e-15, 'rel': 0.0}, {'tol': 1e-15, 'rel': 1e-9}]
+MODES = ['const', 'g', 'tol', 'all']                # which names the later generation calls rebind
+SHAPES = ['same2', 'diff2', 'same3', 'diff3', 'joined']
 
 
 def names_of(scheme, nv):
@@ -31,6 +39,9 @@ def _c(rng):
 
 def rhs_text(kind, free, rng):
     v = [rng.choice(free) for _ in range(3)] if free else []
+    if kind == 'named':
+        return rng.choice(['K0', 'K0*%s + K1' % v[0], '%s - K1' % v[0], 'g(%s, K0) + K1' % v[1], 'K0*%s*%s - K1' % (v[0], v[2]),
+                           'K1 - g(%s)' % v[0]]) if free else rng.choice(['K0', 'K1', 'K0 - K1', 'g(K0, K1)'])
     if kind == 'const' or not free:
         return rng.choice(['3', '-2.5', '0', '0.1', '-7', '1e300', '-1e300', '1e-300', '2.5e5'])
     if kind == 'linear':
@@ -43,7 +54,7 @@ def rhs_text(kind, free, rng):
     return rng.choice(['g(%s, %s)' % (v[0], v[1]), 'g(%s) + 2' % v[0], '2*g(%s, 3) - %s' % (v[0], v[1])])
 
 
-def gen_program(cmp, pos, scheme, kind, nrel, seed):
+def gen_program(cmp, pos, scheme, kind, nrel, seed, pool=KINDS):
     rng = random.Random('%s|%s|%s|%s|%d|%d' % (cmp, pos, scheme, kind, nrel, seed))
     nv = rng.choice([11, 13, 16]) if pos == 'twodigit' else rng.choice([max(3, nrel + 1), 5, 12])
     if kind == 'const' and nrel == 1 and pos == 'first' and rng.random() < .5:
@@ -57,7 +68,7 @@ def gen_program(cmp, pos, scheme, kind, nrel, seed):
     if scheme == 'alist' and kind == 'abs':            # names inside 'abs' are replaced textually (documented FIXME)
         kind = 'linear'
     rels = [{'i': i, 'cmp': cmp if k == 0 else rng.choice(CMPS), 'rhs': rhs_text(kind if k == 0 else rng.choice(
-        [q for q in KINDS if q != 'abs' or scheme != 'alist']), free, rng)} for k, i in enumerate(lhs)]
+        [q for q in pool if q != 'abs' or scheme != 'alist']), free, rng)} for k, i in enumerate(lhs)]
     rng.shuffle(rels)
     return {'family': 'single' if nrel == 1 else 'several', 'scheme': scheme, 'nv': nv, 'rels': rels,
             'nvars_arg': rng.random() < .6 or scheme in ('xlist', 'alist'), 'g': rng.choice(sorted(GF)), 'seed': seed,
